@@ -73,7 +73,33 @@ def components(matrix):
 
     with EighRecorder() as rec:
         out = D.elasticity_components(np.asarray([matrix], dtype=float))
-    return {k: np.asarray(v)[0] for k, v in out.items()}, rec.calls
+    res1 = {k: np.asarray(v)[0] for k, v in out.items()}
+    _SEEN.append((np.asarray(matrix, dtype=float).copy(), res1))
+    return res1, rec.calls
+
+
+_SEEN = []   # every (matrix, single-call result) of this run: replayed as ONE series at the end of `run`
+
+
+def check_series(res):
+    """`elasticity_components` takes a series of matrices: every entry of the result for the series must be the result for that
+    matrix alone (no state may leak from one matrix of the series to the next)."""
+    from pydrex import diagnostics as D
+
+    if len(_SEEN) < 2:
+        return
+    Ms = np.stack([m for m, _ in _SEEN])
+    out = D.elasticity_components(Ms)
+    res.evaluations += 1
+    res.count("series_call_matrices", len(_SEEN))
+    for k, v in out.items():
+        v = np.asarray(v)
+        for i, (_, single) in enumerate(_SEEN):
+            a, b = np.asarray(v[i], dtype=float), np.asarray(single[k], dtype=float)
+            if not np.allclose(a, b, rtol=1e-12, atol=1e-12, equal_nan=True):
+                res.violation(f"series:{k}", f"elasticity_components on a series differs from the per-matrix result at index {i} for '{k}': "
+                              f"{a.tolist()} vs {b.tolist()}", {"index": i, "matrix": _SEEN[i][0].tolist(), "first_matrix": _SEEN[0][0].tolist()})
+                return
 
 
 def rotate6(M, Q):
@@ -278,6 +304,7 @@ def check_orthorhombic(res, M0, Q, out_q, tag):
 
 # ------------------------------------------------------------------ run
 def run(ctx, res):
+    _SEEN.clear()
     from pydrex import diagnostics as D
 
     rng = np.random.default_rng(ctx["seed"] + 1212)
@@ -452,6 +479,7 @@ def run(ctx, res):
             res.traces += 1
         else:
             res.mismatch("diagnostics.smallest_angle", "random vectors", want, got)
+    check_series(res)
 
 
 def replay(data):
